@@ -251,9 +251,9 @@ theorem sim_keep (h : SysRelX m σ) (sl : Slot) (hi : Nat) (p : Path) : StepOK m
   · rw [h1, h2]; exact ⟨h, ObsAgreeX.same _ rfl⟩
   · rw [h1, h2]
     simp only
-    have hfound : (nav tx p).isSome = d.has p ∧ ∀ b, nav tx p = some b → pureNav p = some b := by
+    have hfound : (nav tx p).isSome = d.has p ∧ ∀ b, nav tx p = some b → pureNav p = some b ∧ b.IsAt p := by
       rcases htx.nav p with ⟨b, hb, hba, hm⟩ | ⟨hb, hm⟩
-      · rw [hb, has_true_of_mem hm]; exact ⟨rfl, fun b' hb' => by cases hb'; exact nav_pure hb⟩
+      · rw [hb, has_true_of_mem hm]; exact ⟨rfl, fun b' hb' => by cases hb'; exact ⟨nav_pure hb, hba⟩⟩
       · rw [hb, has_false_of_not_mem hm]; exact ⟨rfl, fun b' hb' => by cases hb'⟩
     rw [hfound.1]
     refine ⟨?_, ObsAgreeX.same _ rfl⟩
@@ -290,11 +290,11 @@ theorem sim_fetch (h : SysRelX m σ) (sl : Slot) (hi mi : Nat) : StepOK m σ (.f
         obtain ⟨hf1, hf2⟩ := fetchCached_spec htx hci hsm hb hba
         have hsome : (tx.fetchCached (m.hOf sl).cache mi b.metaPaths).1.isSome = d.has p := by
           rw [hf1]; cases d.has p <;> rfl
-        have hval : ∀ b', (tx.fetchCached (m.hOf sl).cache mi b.metaPaths).1 = some b' → pureNav p = some b' := by
+        have hval : ∀ b', (tx.fetchCached (m.hOf sl).cache mi b.metaPaths).1 = some b' → pureNav p = some b' ∧ b'.IsAt p := by
           intro b' hb'
           rw [hf1] at hb'
           split at hb'
-          · cases hb'; exact hb
+          · cases hb'; exact ⟨hb, hba⟩
           · cases hb'
         rw [hsome]
         refine ⟨?_, ObsAgreeX.same _ rfl⟩
@@ -471,6 +471,139 @@ theorem reroot_ne_begin {p : Path} {op : Op} {sl : Slot} (hso : slotOf op = some
     reroot p op ≠ .beginW ∧ reroot p op ≠ .beginR := by
   cases op <;> simp [slotOf] at hso <;> simp [reroot]
 
+/-! ### reads through the handle of a bucket that does not exist in the transaction's view -/
+
+theorem Sys.stepVia_obs_w (s : Sys) (hb : Bucket) {op : Op} (hso : slotOf op = some Slot.w) {tx : Tx}
+    (htx : s.txOf .w = some tx) : (s.stepVia hb op).2 = (dataOpVia tx hb op).1 := by
+  unfold Sys.stepVia
+  rw [hso]
+  simp only [Sys.txOf] at htx ⊢
+  cases hw : s.w with
+  | none => rw [hw] at htx; cases htx
+  | some bt =>
+    rw [hw] at htx
+    simp only [Option.map_some, Option.some.injEq] at htx
+    subst htx; rfl
+
+section stale
+variable {tx : Tx} {d : DB} {hb : Bucket} {p : Path}
+
+theorem stale_bucket_none (h : TxRel tx d) (hba : hb.IsAt p) (hp : p ∉ d.buckets) (n : Bytes) :
+    hb.bucket tx n = none := by
+  rw [Bucket.bucket_ryw h.inv, Tx.roView_eq_ro]
+  rcases h.rel.bucket hba n with ⟨sub, _, _, hm⟩ | ⟨hn, _⟩
+  · exact absurd (h.rel.bClosed p n hba.ne hm) hp
+  · exact hn
+
+theorem stale_navFrom_none (h : TxRel tx d) (hba : hb.IsAt p) (hp : p ∉ d.buckets) (n : Bytes) (rest : List Bytes) :
+    navFrom tx hb (n :: rest) = none := by
+  simp only [navFrom, stale_bucket_none h hba hp n]
+
+theorem stale_commit_get (h : TxRel tx d) (hba : hb.IsAt p) (hp : p ∉ d.buckets) (k : Bytes) :
+    tx.commit.get (dataKey p k) = none := by
+  cases hg : tx.commit.get (dataKey p k) with
+  | none => rfl
+  | some v =>
+    rcases (h.rel.mem _ _).mp hg with ⟨q, _, hq, _⟩ | ⟨e, he, hke, _⟩
+    · exact absurd hq (dataKey_ne_indexKey _ _ _)
+    · have := (dataKey_injective hba.noSep (h.rel.noSep (h.rel.dIn e he).1) hke).1
+      exact absurd (this ▸ (h.rel.dIn e he).1) hp
+
+theorem stale_get (h : TxRel tx d) (hba : hb.IsAt p) (hp : p ∉ d.buckets) (k : Bytes) : hb.get tx k = none := by
+  rw [Bucket.get_eq h.inv]
+  split
+  · rfl
+  · rw [hba.path]; exact stale_commit_get h hba hp k
+
+theorem stale_getByPrefix (h : TxRel tx d) (hba : hb.IsAt p) (hp : p ∉ d.buckets) (k : Bytes) :
+    hb.getByPrefix tx k = [] := by
+  have hperm := Bucket.getByPrefix_ryw h.inv hb k
+  have hro : hb.getByPrefix tx.roView k = [] := by
+    rw [Tx.roView_eq_ro]
+    unfold Bucket.getByPrefix
+    have hr : (ro tx.commit).readOnly = true := rfl
+    simp only [hr, if_true, Tx.overlayEntries_ro hr, List.append_nil]
+    have hdb : (ro tx.commit).db = tx.commit := rfl
+    rw [hdb, hba.path, show pathBytes p ++ sep :: k = dataKey p k from rfl]
+    have hscan : tx.commit.scan (dataKey p k) = [] := by
+      rw [List.eq_nil_iff_forall_not_mem]
+      intro e he
+      rw [mem_scan] at he
+      have hg := SMap.get_of_mem h.rel.sorted he.1
+      rcases (h.rel.mem _ _).mp hg with ⟨q, _, hq, _⟩ | ⟨e', he', hke, _⟩
+      · rw [hq] at he; exact dataPrefix_not_prefix_indexKey _ _ _ he.2
+      · rw [hke] at he
+        have := ((dataKey_prefix_iff (h.rel.noSep (h.rel.dIn e' he').1) hba.noSep k e'.1.2).mp he.2).1
+        exact hp (this ▸ (h.rel.dIn e' he').1)
+    rw [hscan]; rfl
+  rw [hro] at hperm
+  exact List.Perm.eq_nil hperm
+
+theorem stale_childNames (h : TxRel tx d) (hba : hb.IsAt p) (hp : p ∉ d.buckets) : d.childNames p = [] := by
+  rw [List.eq_nil_iff_forall_not_mem]
+  intro n hn
+  exact hp (h.rel.bClosed p n hba.ne ((DB.mem_childNames d p n).mp hn))
+
+/-- a read through the handle of a bucket that is not in the write transaction's view finds an
+    empty bucket, and nothing below it -/
+theorem dataOpVia_stale (h : TxRel tx d) (hba : hb.IsAt p) (hp : p ∉ d.buckets) (op : Op)
+    (hnm : mutating op = false) (hso : slotOf op = some Slot.w) (hi : Nat) :
+    ObsAgreeX (.via hi op) (dataOpVia tx hb op).1 (Spec.KV.staleRead op) := by
+  have hcanon : ∀ o : Obs, o.canon = o → ObsAgreeX (.via hi op) o o := fun o ho => ObsAgreeX.same _ ho
+  cases op with
+  | beginW | beginR | commit | rollback | endR | reopen | probe | raw => simp [slotOf] at hso
+  | create _ _ | delb _ _ | put _ _ _ _ | del _ _ _ | clear _ _ => simp [mutating] at hnm
+  | iter _ _ _ _ _ => exact Or.inl rfl
+  | has s rel =>
+    cases rel with
+    | nil => exact hcanon _ rfl
+    | cons n rest =>
+      simp only [dataOpVia, Spec.KV.staleRead, stale_navFrom_none h hba hp]
+      exact hcanon _ rfl
+  | get s rel k =>
+    cases rel with
+    | nil =>
+      simp only [dataOpVia, Spec.KV.staleRead, navFrom, stale_get h hba hp]
+      exact hcanon _ rfl
+    | cons n rest =>
+      simp only [dataOpVia, Spec.KV.staleRead, stale_navFrom_none h hba hp]
+      exact hcanon _ rfl
+  | pfx s rel k =>
+    cases rel with
+    | nil =>
+      simp only [dataOpVia, Spec.KV.staleRead, navFrom, stale_getByPrefix h hba hp]
+      exact hcanon _ rfl
+    | cons n rest =>
+      simp only [dataOpVia, Spec.KV.staleRead, stale_navFrom_none h hba hp]
+      exact hcanon _ rfl
+  | names s rel =>
+    cases rel with
+    | nil =>
+      simp only [dataOpVia, Spec.KV.staleRead, navFrom]
+      have hag := names_agree h p hba.noSep
+      rw [stale_childNames h hba hp, ← Bucket.bucketNames_eq hba] at hag
+      have hs : slotOf (Op.names s []) = some Slot.w := hso
+      simp only [slotOf, Option.some.injEq] at hs
+      subst hs
+      unfold ObsAgreeX slotOfX
+      unfold Agree at hag
+      have hro : tx.readOnly = false ∨ tx.readOnly = true := by cases tx.readOnly <;> simp
+      rcases hag with hu | ha
+      · cases hu
+      · right
+        simp only [slotOf, if_true, List.length_nil, BEq.rfl]
+        rcases hro with hro | hro
+        · simpa [hro] using ha
+        · -- a read-only transaction: the listing itself is the ascending one
+          rw [hro] at ha
+          simp only [if_true] at ha
+          rw [ha]; rfl
+    | cons n rest =>
+      simp only [dataOpVia, Spec.KV.staleRead, stale_navFrom_none h hba hp]
+      exact hcanon _ rfl
+
+end stale
+
 theorem sim_via (hds : DeleteSpec) (h : SysRelX m σ) (hi : Nat) (op : Op) : StepOK m σ (.via hi op) := by
   unfold StepOK
   simp only [SysX.step, Spec.KV.SysX.step, slotOf_eq]
@@ -498,7 +631,7 @@ theorem sim_via (hds : DeleteSpec) (h : SysRelX m σ) (hi : Nat) (op : Op) : Ste
         cases hg' : AMap.get (σ.regsOf sl) hi with
         | none => rw [hg'] at hdom; cases hdom
         | some p =>
-          have hpn := hrr.val hi hb p hg hg'
+          obtain ⟨hpn, hbat⟩ := hrr.val hi hb p hg hg'
           simp only
           by_cases hshape : viaShapeOK op = true
           · simp only [hshape, Bool.not_true, Bool.false_eq_true, if_false]
@@ -531,7 +664,13 @@ theorem sim_via (hds : DeleteSpec) (h : SysRelX m σ) (hi : Nat) (op : Op) : Ste
                   | r => exact Or.inr (Or.inl hso)
                   | w => left; simpa using hmut
                 rw [Sys.stepVia_state m.base hb op hcond]
-                exact ⟨h, Or.inl rfl⟩
+                cases sl with
+                | r => exact ⟨h, Or.inl rfl⟩
+                | w =>
+                  have hnm : mutating op = false := by simpa using hmut
+                  have hpn' : p ∉ d.buckets := fun hm => hhas (has_true_of_mem hm)
+                  rw [Sys.stepVia_obs_w m.base hb hso h1]
+                  exact ⟨h, dataOpVia_stale htx hbat hpn' op hnm hso hi⟩
           · have hshape' : viaShapeOK op = false := by simpa using hshape
             simp only [hshape', Bool.not_false, if_true]
             right
